@@ -72,7 +72,7 @@ static CaseResult system_case(Tape &t)
 	int nids = t.range(3, 20);
 	int nact = t.range(5, 80);
 	uint32_t wq = t.chance(1, 2) ? 12 : 5;   // half of the cases let queries pile up (more than 16 outstanding)
-	int n_unmatched = 0, n_reuse = 0, n_over16 = 0, n_replies = 0, n_relayed = 0, outstanding = 0, n_big = 0, n_runt = 0;
+	int n_unmatched = 0, n_reuse = 0, n_over16 = 0, n_replies = 0, n_relayed = 0, outstanding = 0, n_big = 0, n_runt = 0, n_longname = 0, n_hdronly = 0;
 	std::string trace;
 	auto note = [&](const std::string &x) { if (trace.size() < 1500) trace += "\n  " + x; if (getenv("VERIF_TRACE")) fprintf(stderr, "%.6f %s\n", sim::W.now / 1e6, x.c_str()); };
 	for (int a = 0; a < nact && !t.exhausted(); a++) {
@@ -81,6 +81,16 @@ static CaseResult system_case(Tape &t)
 			int k = (int)t.below((uint32_t)nreq);
 			uint16_t id = (uint16_t)(t.chance(1, 12) ? 0 : 1000 + 7 * t.below((uint32_t)nids));
 			std::string name = NAMES[t.below(sizeof NAMES / sizeof NAMES[0])];
+			if (t.chance(1, 8)) {
+				// names up to the longest DNS allows (253 characters, labels up to 63), outside the tunnel domain
+				static const size_t LEN[] = {200, 240, 243, 244, 245, 250, 252, 253};
+				size_t want = LEN[t.below(8)]; size_t lab = t.chance(1, 2) ? 63 : 40 + t.below(23);
+				std::string n;
+				while (n.size() + 12 < want) { size_t l = std::min(lab, want - 12 - n.size()); if (l == 0) break; n += std::string(l, (char)('a' + n.size() % 26)); n += '.'; }
+				n += "example.org";
+				while (n.size() < want) n = "x" + n;
+				if (n.size() == want && n.find("..") == std::string::npos && n[0] != '.') { size_t first = n.find('.'); if (first <= 63) { name = n; n_longname++; } }
+			}
 			uint16_t qt = TYPES[t.below(sizeof TYPES / sizeof TYPES[0])];
 			sim::Datagram dg; dg.src = req[k]; dg.dst = req[k].family == AF_INET6 ? scn::SRV6 : scn::SRV4;
 			dg.data = refproto::make_query(id, name, qt, t.chance(1, 3));
@@ -119,6 +129,9 @@ static CaseResult system_case(Tape &t)
 			}
 			// a datagram too short to be a DNS message (1..11 bytes): whatever its first two bytes say, it is no reply to anybody's query;
 			// at most the requester who asked with those two bytes as id may get it
+			// a reply that is nothing but the 12-byte header (what a resolver sends when it cannot even parse the question): it has an id
+			// like any other reply
+			if (!unknown && t.chance(1, 8) && reply.size() > 12) { reply.resize(12); reply[4] = reply[5] = 0; reply[6] = reply[7] = reply[8] = reply[9] = reply[10] = reply[11] = 0; n_hdronly++; }
 			bool runt = t.chance(1, 6);
 			if (runt) {
 				size_t n = 1 + t.below(11);
@@ -174,6 +187,8 @@ static CaseResult system_case(Tape &t)
 	if (n_unmatched) r.cls("unmatched-reply");
 	if (n_big) r.cls("reply-padded-to-a-large-size");
 	if (n_runt) r.cls("runt-datagram-from-the-local-dns-port");
+	if (n_longname) r.cls("query-name-of-200-to-253-characters");
+	if (n_hdronly) r.cls("header-only-reply");
 	return r;
 }
 
